@@ -180,6 +180,10 @@ func runSerClosed(c *core.Ctx) {
 			if (sc != nil && inClosure[sc]) || n == "strconv.AppendInt" {
 				continue
 			}
+			// the escaper's own \u00xx branch written with the standard library (SER-2 decides which bytes reach it)
+			if fn == esc && isU4xAppendf(call) {
+				continue
+			}
 			bad = append(bad, n)
 		}
 	}
@@ -655,6 +659,8 @@ func runSQLDistinct(c *core.Ctx) {
 	var distinct []ssa.Instruction
 	var tagJoins []ssa.Instruction
 	flows := map[ssa.Instruction]bool{} // the joined dataset descends from a Distinct() result
+	viaEmptyEdge := map[ssa.Instruction]bool{}
+	joinMap := "" // access path of the map whose entries the loop around the current join walks
 	var upstream func(v ssa.Value, chain []*ssa.Call, seen map[ssa.Value]bool) bool
 	upstream = func(v ssa.Value, chain []*ssa.Call, seen map[ssa.Value]bool) bool {
 		v = an.Unwrap(v)
@@ -686,8 +692,13 @@ func runSQLDistinct(c *core.Ctx) {
 				return okAll
 			}
 		case *ssa.Phi:
-			for _, e := range x.Edges {
+			for i, e := range x.Edges {
 				if !upstream(e, chain, seen) {
+					// an edge taken only when the condition map is empty (`if len(f.Tags) > 0 { sub =
+					// sub.Distinct() }` in front of the loop that joins per entry): no entry, no join
+					if joinMap != "" && i < len(x.Block().Preds) && emptyMapEdge(x.Block().Preds[i], x.Block(), joinMap) {
+						continue
+					}
 					return false
 				}
 			}
@@ -722,9 +733,14 @@ func runSQLDistinct(c *core.Ctx) {
 		}
 		if strings.HasSuffix(n, "SelectDataset).Join") && strings.Contains(o.Path(call.Call.Args[1]), `const:"event_tags"`) {
 			tagJoins = append(tagJoins, o.Site())
+			joinMap = rangedMapOf(o.Site())
 			if upstream(call.Call.Args[0], o.Chain, map[ssa.Value]bool{}) {
 				flows[o.Site()] = true
 			}
+			if joinMap != "" && flows[o.Site()] {
+				viaEmptyEdge[o.Site()] = true
+			}
+			joinMap = ""
 		}
 	})
 	if len(tagJoins) == 0 {
@@ -741,13 +757,47 @@ func runSQLDistinct(c *core.Ctx) {
 		}
 		// … and the dataset that is joined is the one Distinct() answered (a bare `b.Distinct()`
 		// whose result is dropped changes nothing)
-		if !dom || !flows[j] {
+		// (a Distinct() behind "the condition map has entries" does not dominate the per-entry loop,
+		// but every dataset reaching the join has passed it: flows says so)
+		if !(dom || viaEmptyEdge[j]) || !flows[j] {
 			good = false
 		}
 	}
 	c.CountSites(len(tagJoins))
 	c.Check(good, nil, fname(c, build), "distinct", P.Pos(tagJoins[0].Pos()), "every join with event_tags is dominated by Distinct(): an event carrying several listed values of one tag yields one row, so the limit counts events",
 		"a sub-select joins event_tags on a path without Distinct(): an event with two listed values of one #x condition yields two rows, which eat the filter's limit and push older matches out")
+}
+
+// rangedMapOf: the access path of the map whose entries the loop around instruction in walks ("" if none)
+func rangedMapOf(in ssa.Instruction) string {
+	for h := an.LoopHeaderOf(in.Block()); h != nil; {
+		for _, hi := range h.Instrs {
+			if nx, ok := hi.(*ssa.Next); ok {
+				if r, isR := nx.Iter.(*ssa.Range); isR {
+					if _, isMap := r.X.Type().Underlying().(*types.Map); isMap {
+						return an.PathOf(r.X)
+					}
+				}
+			}
+		}
+		break
+	}
+	return ""
+}
+
+// emptyMapEdge: the edge pred→to is taken only when the map at path m has no entry (it is nil or
+// its length is 0)
+func emptyMapEdge(pred, to *ssa.BasicBlock, m string) bool {
+	iff, ok := an.LastInstr(pred).(*ssa.If)
+	if !ok || len(pred.Succs) != 2 || pred.Succs[0] == pred.Succs[1] {
+		return false
+	}
+	k := condKey(an.NormCond(an.Cond{V: iff.Cond, True: pred.Succs[0] == to, At: pred}))
+	switch k {
+	case "len(" + m + ") <= const:0", "const:0 == len(" + m + ")", "len(" + m + ") == const:0", "const:nil == " + m, m + " == const:nil":
+		return true
+	}
+	return false
 }
 
 // ---------------------------------------------------------------- MERGE-CURSOR
@@ -761,7 +811,7 @@ func runMergeCursor(c *core.Ctx) {
 	}
 	c.CountFuncs(1)
 	var cursor []*ssa.BasicBlock
-	var resets []*ssa.MapUpdate
+	var resets []ssa.Instruction
 	msg := ""
 	for _, p := range fn.Params {
 		if typeNameOf(p.Type()) == "ServerEventMsg" {
@@ -772,6 +822,13 @@ func runMergeCursor(c *core.Ctx) {
 	// are related inside that helper)
 	host := fn
 	an.Region(fn, nil, func(o an.Occ) {
+		// (the seen-set emptied in place: `clear(stat.seen[subID])`)
+		if call, isCall := o.In.(*ssa.Call); isCall {
+			if b, isB := call.Call.Value.(*ssa.Builtin); isB && b.Name() == "clear" && len(call.Call.Args) == 1 && strings.HasPrefix(o.Path(call.Call.Args[0]), "recv.seen[") {
+				resets = append(resets, call)
+			}
+			return
+		}
 		mu, ok := o.In.(*ssa.MapUpdate)
 		if !ok {
 			return
